@@ -368,12 +368,12 @@ func suiteC12(cfg Config, res *Result) {
 			pc.Loaders = []map[string]string{files}
 		}
 		cases = append(cases, pc)
-		wants[pc.Req()] = sb.String()
+		wants[pc.Key()] = sb.String()
 	}
 	runProgCases(cfg, res, cases, "c12", func(c ProgCase, o ImplOutcome) bool {
 		return strings.Count(c.Src, "{% with")+strings.Count(c.Src, "{% for")+strings.Count(c.Src, "{% macro")+strings.Count(c.Src, "{% include") >= 2
 	}, func(c ProgCase, o ImplOutcome) *Finding {
-		want := wants[c.Req()]
+		want := wants[c.Key()]
 		if o.Class != "ok" || o.Out != want {
 			return &Finding{Kind: "oracle", Proj: "reference", Sig: "c12-reference", Case: c.String(), Impl: o.Canon() + " " + o.Msg, Model: "reference environment: ok " + hxb(want)}
 		}
